@@ -121,6 +121,8 @@ class SolverSeam:
             self.log.add("lp", site, idx, "nofault", int(res.status))
             return res
         res = REAL_LINPROG(*args, **kwargs)
+        if res.status not in (0, 2, 3):
+            self.log.count("natural_solver_giveup:%s:%d" % (site, int(res.status)))
         self.log.count("lp:%s:%d" % (site, int(res.status)))
         self.log.add("lp", site, idx, int(res.status))
         return res
